@@ -120,7 +120,6 @@ def main():
         ("duration_to_timedelta", "Src.duration_to_timedelta", sn_dur, "p1"),
         ("timestamp_from_datetime", "Src.timestamp_from_datetime", [(u,) for u in tss], "p2"),
         ("timestamp_to_datetime", "Src.timestamp_to_datetime", sn_ts, "p1"),
-        ("timestamp_to_json_frac", "Src.timestamp_to_json_frac", [(u,) for u in micros], "pf"),
     ])
     bad = []
 
@@ -156,16 +155,8 @@ def main():
             continue  # outside datetime's range: not modelled
         cmp("timestamp_to_datetime", i, (s, nn), want)
 
-    for i, u in enumerate(micros):
-        inst = EPOCH + rng.randint(TS_MIN // 10**6 + 90000, TS_MAX // 10**6 - 90000) * 10**6 * US + u * US
-        dt = rng.choice((inst, inst.astimezone(zones[i % 3]), inst.replace(tzinfo=None)))
-        text = inst.replace(microsecond=0, tzinfo=None).isoformat() if dt.tzinfo else dt.replace(microsecond=0).isoformat()
-        got = out["timestamp_to_json_frac"][i].split()
-        # rendered as PyPreludeTime.fmtFrac0 / fmtFrac say
-        text += "Z" if got[1:] == ["none"] else "." + "%0*d" % (int(got[1]), int(got[2])) + "Z"
-        real = T.timestamp_to_json(dt)
-        if got[0] != "ok" or text != real:
-            bad.append(("timestamp_to_json_frac", u, " ".join(got) + " -> " + text, real))
+    # (timestamp_to_json: the whole method is translated by extract_srcleaf.py and validated by check_srcleaf.py)
+    micros = []
 
     total = len(micros) + 2 * len(durs) + len(sn_dur) + len(tss) + len(sn_ts)
     print("check_srctime: %d comparisons (%d timedeltas x2, %d Duration pairs, %d datetimes, %d Timestamp pairs, %d microsecond fields), %d disagreements"
